@@ -785,6 +785,25 @@ def I_rules(ctx, rule="I"):
                     why = "state has sources %s" % [fmt_src(s) for s in srcs][:4]
                 ctx.check(ok, rule + "1", "stream-state|%s" % e["name"], where,
                           "the interruptible stream wraps stream_internal with the caller's interruptibility_state", why)
+                # what interruptible_with yields is what the caller gets: no adaptor rewrites or drops items afterwards (the streams
+                # ignore the include flag; the Interrupted item carries the function polled at the interruption)
+                eb_ = fb.bodies.get(e["id"])
+                post = []
+                if eb_ is not None:
+                    re_ = return_expr(eb_)
+                    if re_ is not None:
+                        for c in walk_expr(re_):
+                            if c.kind == "call" and c[1] != "interruptible::InterruptibleStreamExt::interruptible_with" and \
+                                    (c[1].startswith("futures::StreamExt::") or c[1].startswith("futures::TryStreamExt::")) and \
+                                    any(x.kind == "call" and x[1] == "interruptible::InterruptibleStreamExt::interruptible_with" for x in walk_expr(c)):
+                                post.append(c[1].split("::")[-1])
+                incl = [s_ for bx_ in m.reach_bodies(e["id"]) if bx_.root == e["id"] for sb_, blk_ in enumerate(bx_.blocks) if blk_["term"]["k"] == "switch"
+                        for s_ in sources_of_expr(ctx, bx_, strip_refs(switch_expr(bx_, sb_)), mode="taint")
+                        if s_.kind == "param" and s_[1] == e["id"] and s_[3][:1] == (f_inc,)]
+                ctx.check(not post and not incl, rule + "1", "stream-items|%s" % e["name"], where,
+                          "the items of interruptible_with are returned as they are; the include flag is not consulted by the stream API",
+                          "the interruptible stream's items pass through %s / depend on interrupted_next_item_include after interruptible_with: "
+                          "an Interrupted(Some(fn)) item can be rewritten or dropped" % (post or "a branch on the include flag"))
             continue
         # fold/for_each families: the call of the tracking function
         sites = [(b, bb, t) for (b, bb, t) in fl.call_sites().get(tf["id"], []) if b.id in m.reach(e["id"])]
@@ -1243,6 +1262,36 @@ def O6(ctx, rule="O6"):
     ctx.entry_floor(rule, rule, ("fold", "for_each", "try_fold", "try_for_each"), "per-item body calling the user's function")
 
 
+def clone_frame(ctx, rule="Q6"):
+    """a clone of the graph has every field copied from the same field (the reversed structure is not a copy of the forward
+    one, the counts are the counts): a derived Clone, or a hand-written one that is field-by-field"""
+    fb, m = ctx.fb, ctx.model
+    imp = [i for i in fb.impls if i.get("trait") == "std::clone::Clone" and (i.get("self_ty") or "").startswith("fn_graph::FnGraph<")]
+    found = False
+    for bq in fb.prod_bodies():
+        sigq = fb.fns.get(bq.id) or {}
+        if sigq.get("impl_trait") == "std::clone::Clone" and (sigq.get("impl_self") or "").startswith("fn_graph::FnGraph<") and sigq.get("name") == "clone":
+            found = True
+            aggs = [s_ for _, _, s_ in bq.stmts() if s_["k"] == "assign" and s_["rv"]["k"] == "agg" and s_["rv"].get("def") == "fn_graph::FnGraph"]
+            okq = bool(aggs)
+            whyq = "no FnGraph construction in clone()"
+            for s_ in aggs:
+                for i, o in enumerate(s_["rv"]["ops"]):
+                    ex = strip_refs(expr_operand(bq, o))
+                    hops = 0
+                    while ex.kind == "call" and ex[1] in ("std::clone::Clone::clone", "std::borrow::ToOwned::to_owned") and ex[2] and hops < 4:
+                        ex = strip_refs(ex[2][0])
+                        hops += 1
+                    if not (ex.kind == "field" and strip_refs(ex[1]) == E(("arg", 1)) and ex[2] == i):
+                        okq = False
+                        whyq = "field #%d (%s) of the clone is `%s`" % (i, (s_["rv"].get("fields") or [""] * (i + 1))[i], fmt_expr(ex, bq))
+            ctx.check(okq, rule, "clone-frame", m.where(bq),
+                      "FnGraph::clone copies every field from the same field of the original", whyq)
+    if not found:
+        ctx.check(bool(imp), rule, "clone-frame", "src/fn_graph.rs", "FnGraph: Clone is present (derived: no MIR body of its own to inspect in this configuration)",
+                  "no Clone impl for FnGraph found")
+
+
 def O3b(ctx, rule="O3b"):
     """the countdown of remaining functions is decremented for every item that
     was handed out, whatever the user future returned (else the final state is
@@ -1265,6 +1314,7 @@ def O3b(ctx, rule="O3b"):
             ctx.cover(rule, b.id)
             # decrement sites: `x -= 1` on a node_count-derived value, or a call to a crate-local helper doing it
             dec_blocks = []
+            helper_cond = []
             for bb, si, s_ in b.stmts():
                 if s_["k"] == "assign" and s_["rv"]["k"] in ("use",):
                     v = expr_rvalue(b, s_["rv"], 0, (bb, si))
@@ -1294,7 +1344,11 @@ def O3b(ctx, rule="O3b"):
                                 if v.kind == "binop" and v[1] == "Sub" and is_const(v[3], 1):
                                     ps = fl.sources_local(hb, st_["pl"]["l"], (), "taint")
                                     if any(x.kind == "alloc" and x[4] in NODE_COUNT_FNS for x in ps):
-                                        dec_blocks.append(bb)
+                                        hg = [g for g in cond_guards(hb, bb_) if (hb.blocks[g[0]]["term"].get("sp") or {}).get("desugar") != "Await"]
+                                        if hg:
+                                            helper_cond.append("%s: %s" % (short(hb.id), fmt_expr(strip_refs(hg[0][1]), hb)[:60]))
+                                        else:
+                                            dec_blocks.append(bb)
             a = uas[0]
             exits = [x for x in b.exits()]
             # try_fold: the `?` exit discards the outcome
@@ -1322,8 +1376,12 @@ def O3b(ctx, rule="O3b"):
             ctx.check(not ung, rule, "countdown-only-items|%s" % short(b.id), m.where(b, (ung or dec_blocks or [0])[0]),
                       "the countdown is decremented only under `Some(id)` of the dequeued item",
                       "the countdown is decremented even when the dequeued item carries no id (interruption notice): it underflows / reports Finished with functions left")
+            if helper_cond:
+                paths_ok = False
             ctx.check(paths_ok, rule, "countdown-every-item|%s" % short(b.id), m.where(b, a.into_bb),
                       "after the user future completes, every path to the end of the per-item body decrements the countdown of remaining functions",
+                      ("the countdown decrement inside the helper is conditional (%s): a completed function may not be counted off, so the outcome says Interrupted although everything was processed" % helper_cond[:2])
+                      if helper_cond else
                       "a path from the completion of the user future to the end of the per-item body skips the countdown decrement (decrement blocks %s): the outcome state becomes Interrupted although the function was processed" % dec_blocks)
     ctx.entry_floor(rule, rule, ("fold", "for_each", "try_fold", "try_for_each"), "per-item body awaiting the user future")
 
